@@ -82,6 +82,18 @@ func vhTemplate(t int) (lit []uint8, dist []uint8) {
 		lit[97], lit[256], lit[257], lit[258] = 1, 2, 3, 3
 		lit = lit[:259]
 		dist = []uint8{3, 3, 3, 3, 3, 3, 3, 3}
+	case 15: // distance code over-subscribed only by its 15-bit code
+		lit[97], lit[98], lit[256], lit[257], lit[258] = 2, 2, 2, 3, 3
+		lit = lit[:259]
+		dist = []uint8{1, 1, 15}
+	case 16: // distance code 1,2,...,14,15,15,15: over-subscribed at depth 15
+		lit[97], lit[98], lit[256], lit[257], lit[258] = 2, 2, 2, 3, 3
+		lit = lit[:259]
+		dist = make([]uint8, 17)
+		for i := 0; i < 14; i++ {
+			dist[i] = uint8(i + 1)
+		}
+		dist[14], dist[15], dist[16] = 15, 15, 15
 	case 9: // under-subscribed lit/len code
 		lit[97], lit[98], lit[256] = 2, 2, 3
 		lit = lit[:257]
@@ -180,6 +192,38 @@ func vhBuild(ctx int, s []byte) vhCtx {
 		c.preOut = produced
 		c.symStart = w.bitLen()
 		return vhMerge(w, s, c)
+	case ctx == 4:
+		// final stored block: header concrete, LEN/NLEN/data symbolic
+		w.bits(1, 1)
+		w.bits(0, 2)
+		p := w.bytes()
+		c.symStart = 8 * len(p)
+		c.stream = append(p, s...)
+		return c
+	case ctx == 5:
+		// final stored block after a fixed block that ends mid-byte (bit buffer not empty)
+		w.bits(0, 1)
+		w.bits(1, 2)
+		vbFixedSym(w, 'a')
+		vbFixedSym(w, 256)
+		w.bits(1, 1)
+		w.bits(0, 2)
+		p := w.bytes()
+		c.preOut = 1
+		c.symStart = 8 * len(p)
+		c.stream = append(p, s...)
+		return c
+	case ctx >= 70 && ctx < 90:
+		// dynamic template, non-final, window, then a final stored block with 24 data
+		// bytes (the input goes on well past the header and the window)
+		lit, dist := vhTemplate(ctx - 70)
+		vbDynHeader(w, false, lit, dist, ctx-70 == 8 || ctx-70 == 14)
+		c.symStart = w.bitLen()
+		c = vhMerge(w, s, c)
+		w2 := &vbw{}
+		vbStored(w2, true, []byte("0123456789abcdefghijklmn"))
+		c.stream = append(c.stream, w2.bytes()...)
+		return c
 	case ctx >= 10 && ctx < 30:
 		lit, dist := vhTemplate(ctx - 10)
 		vbDynHeader(w, false, lit, dist, ctx-10 == 8 || ctx-10 == 14)
